@@ -74,7 +74,7 @@ class Obs3(e2.Obs):
     gt: list = field(default_factory=list)     # ground-truth violations [(prop, key, msg)]
 
 
-def run_once_e3(cfg: E3Config, chooser: Chooser, *, world_hook=None, around_run=None, terminate_choice=False) -> Obs3:
+def run_once_e3(cfg: E3Config, chooser: Chooser, *, world_hook=None, around_run=None, terminate_choice=False, threaded=False) -> Obs3:
     base = cfg.base
     spec = base.spec
     ctx = dict(base.context) if base.context is not None else None
@@ -87,7 +87,7 @@ def run_once_e3(cfg: E3Config, chooser: Chooser, *, world_hook=None, around_run=
     eff_workers = cfg.max_workers if cfg.max_workers is not None else cfg.cpu_count
     world = VWorld(chooser, cpu_count=cfg.cpu_count, log_mode=cfg.log_mode,
                    die_labels=[spec.labels[i] for i in base.died], die_exit0=cfg.die_exit0,
-                   liveness_choice=cfg.liveness_choice, terminate_choice=terminate_choice)
+                   liveness_choice=cfg.liveness_choice, terminate_choice=terminate_choice, threaded=threaded)
     want_method = cfg.backend
     backend_events: list = []
 
@@ -176,12 +176,19 @@ def run_once_e3(cfg: E3Config, chooser: Chooser, *, world_hook=None, around_run=
                 outcome = ('raise', e)
             world.record('run_tasks-left', outcome[0])
             world.finish_children()
+            if world.sched is not None:
+                world.sched.shutdown()
         metas = dict(backend.runner.metas) if backend.runner else {}
         return Obs3(cfg=base, ref=ref, events=backend_events, world=list(U.WORLD.log), outcome=outcome,
                     req_tasks=req, built=built, storage=storage, metas=metas, choices=chooser.choices,
                     vworld=world, gt=gt)
     finally:
         lt_process.run_or_load_task = orig_rol
+        if world.sched is not None and not world.sched.closing:
+            try:
+                world.sched.shutdown()      # an error is on its way out: do not leave threads parked
+            except BaseException:  # noqa
+                pass
         storage.release()
 
 
